@@ -27,7 +27,7 @@ fn announced(kind: u8, p: usize) -> Option<Vec<u8>> {
 }
 
 fn scenario(pr: &Params) -> Verdict {
-    world::reset(world::WorldCfg { nested_env: true, yields: true, select: false, policy: pr.policy });
+    world::reset(world::WorldCfg { nested_env: true, yields: true, select: false, policy: pr.policy, coop: false });
     let n = pr.ids.len();
     let conns: Vec<e3::RawConn> = (0..n).map(|p| e3::raw_conn(&format!("P{}", p))).collect();
     let mut sent: Vec<Vec<Vec<Vec<u8>>>> = Vec::new();
@@ -184,7 +184,7 @@ fn scenario(pr: &Params) -> Verdict {
 /// chance to notice (it is not inside recv): sends for that identity must reach the connection that
 /// is connected under it now.
 fn reconnect_scenario(id_kind: u8, policy: u8) -> Verdict {
-    world::reset(world::WorldCfg { nested_env: true, yields: true, select: false, policy });
+    world::reset(world::WorldCfg { nested_env: true, yields: true, select: false, policy, coop: false });
     let id = announced(id_kind, 0).unwrap();
     let a1 = e3::raw_conn("A1");
     let a2 = e3::raw_conn("A2");
